@@ -100,6 +100,11 @@ CLAIMED["C04"] = ("5/C04",
    "Not covered: agreement with the constant-weighted-product formula to powPrecision, monotonicity of the stableswap invariant, value conservation over sequences (numeric). Trusted: osmomath Pow / binary search (C13).",
    "SSA origin-term / rounding-class / sibling-agreement rules")
 
+CLAIMED["C08"] = ("5/C08",
+   "Static rules over concentrated-liquidity reward code decide: crossing flips tick snapshots to (global + this swap's growth) - old and global - old per uptime; a new tick starts with the global value iff current >= tick; growth above/below follows the documented four-case table and uptime growth inside the three-way split (path-sensitive condition matching with infeasible-path pruning); accumulators are accrued to now before positions, ticks or incentive records change and before a position claims; claim = set(init + outside) -> claim -> re-base to global - outside if the position still exists; emission deducts exactly the emitted amount only when the record covers it and only feeds the accumulator of its own uptime; the position age (block time - join time) is compared with each uptime with <.",
+   "Not covered: proportionality / identical positions earn identical rewards as numbers, totals claimable vs paid in over histories. Trusted: osmoutils/accum (C15), go/ssa.",
+   "SSA origin-term / path-sensitive predicate / order rules")
+
 NOT_YET = "check not built yet in this revision (static rule set under construction; see DESIGN.md section 5)"
 
 def main():
